@@ -315,7 +315,19 @@ class RecFn:
         raise AssertionError(self.mode)
 
 
-def to_py(v, objs, log, cache=None):
+class AsyncRecFn(RecFn):
+    """The same callable as a coroutine function (property C09: data replaced by coroutine
+    functions producing the same results)."""
+
+    def __call__(self, *args, **kw):
+        sup = super().__call__
+
+        async def go():
+            return sup(*args, **kw)
+        return go()
+
+
+def to_py(v, objs, log, cache=None, async_fns=False):
     from markupsafe import Markup
     cache = {} if cache is None else cache
     t = v["t"]
@@ -326,18 +338,18 @@ def to_py(v, objs, log, cache=None):
         s = seg_text(v["s"])
         return Markup(s) if v["m"] else s
     if t == "list":
-        xs = [to_py(x, objs, log, cache) for x in v["v"]]
+        xs = [to_py(x, objs, log, cache, async_fns) for x in v["v"]]
         return tuple(xs) if v.get("tup") else xs
     if t == "dict":
-        return {to_py(k, objs, log, cache): to_py(x, objs, log, cache) for k, x in zip(v["k"], v["v"])}
+        return {to_py(k, objs, log, cache, async_fns): to_py(x, objs, log, cache, async_fns) for k, x in zip(v["k"], v["v"])}
     if t == "obj":
         if v["id"] not in cache:
             o = objs[v["id"]]
-            cache[v["id"]] = Probe(v["id"], {k: to_py(x, objs, log, cache) for k, x in o["attrs"].items()},
-                                   {k: to_py(x, objs, log, cache) for k, x in o["items"].items()})
+            cache[v["id"]] = Probe(v["id"], {k: to_py(x, objs, log, cache, async_fns) for k, x in o["attrs"].items()},
+                                   {k: to_py(x, objs, log, cache, async_fns) for k, x in o["items"].items()})
         return cache[v["id"]]
     if t == "fn":
-        return RecFn(v["id"], v["mode"], to_py(v["ret"], objs, log, cache), log)
+        return (AsyncRecFn if async_fns else RecFn)(v["id"], v["mode"], to_py(v["ret"], objs, log, cache, async_fns), log)
     raise ValueError(t)
 
 
